@@ -116,6 +116,9 @@ def verdict(prop, cfg, tier, seed, pr, results, runner, drv, t0, vp):
             divs.append(dict(hid="?", step=0, expected="model rc=%s %s" % (r.get("model_rc"), r.get("model_err", "")),
                              actual="impl rc=%s %s" % (r.get("impl_rc"), r.get("impl_out", "")[-300:]), dir=d))
             continue
+        if r.get("release_differs"):
+            divs.append(dict(hid="?", step=0, expected="release-profile trace identical to debug-profile trace",
+                             actual="traces differ (overflow / debug_assert dependent behaviour)", dir=d))
         nh, no, dv = vp.compare_traces(os.path.join(d, "model"), os.path.join(d, "impl"), levels)
         n_hist += nh
         n_obs += no
@@ -221,7 +224,8 @@ def verdict(prop, cfg, tier, seed, pr, results, runner, drv, t0, vp):
             checker_cmd=f"make Props/{prop}.vo (coq_makefile, full .vo build) && coqc Chk_{prop}.v (Print Assumptions of every pinned theorem) && forbidden-token scan of the dependency cone",
             trusted_base=cfg.get("trusted", TRUSTED_RUST),
             theorems=pr.get("names", []),
-            unproved=pr["failed"],
+            extraction_crosscheck_histories=pr.get("xcheck_examples", 0),
+            unproved=pr["failed"], coqchk=pr.get("coqchk", "not run in the quick tier"),
             evaluations=n_hist, traces_validated_against_impl=n_hist, observations_compared=n_obs,
             distinct_nontrivial=nontriv,
             rule=("histories generated by tools/gen.py (seeded); compared line by line at levels %s against the model; "
